@@ -28,7 +28,7 @@ def _rec(b):
 
 def impl(case):
     with C.scratch_dir() as d:
-        m = D.load(D.write_dataset(d, case['spec']))
+        m = D.load(D.write_dataset(d, case['spec']), reopen=bool(case.get('reopen')))
         try:
             m.n_closest_channels = case['n_closest']
             m.amplitude_threshold = case['thr_default']
@@ -99,6 +99,9 @@ def judge(case, impl_res, ans):
         return 'SPEC: real code raised %s (%s) at %s on an in-domain dataset' % (
             impl_res['raised'], impl_res['msg'], impl_res['where'])
     ok = impl_res['ok']
+    bad = DC.check_wmi(case['spec'], ok['wmi'])
+    if bad:
+        return 'SPEC: ' + bad
     for i, (v, r, m) in enumerate(zip(case['variants'], ok['recs'], ans['ok']['res'])):
         if m['model_spec'] is not True:
             return 'MACHINERY: model record rejected by its own spec (contradicts the theorem), variant %d' % i
@@ -128,6 +131,9 @@ def nontrivial(case):
 
 
 def tally(rep, case, impl_res, ans):
+    rep.count('positions_dtype:' + (case['spec'].get('dtypes') or {}).get('channel_positions', 'float64'))
+    if case.get('reopen'):
+        rep.count('second_model_on_the_directory')
     spec = case['spec']
     rep.count('storage:%s' % ('sparse' if spec.get('template_ind') is not None else 'dense'))
     rep.count('n_closest:%d' % case['n_closest'])
@@ -198,5 +204,9 @@ def gen(tier, rng):
             variants.append(dict(t=t, unwhiten=True, accessors=True))
             variants.append(dict(t=t, unwhiten=rng.random() < .5, thr=rng.pick([0, .25, .5, 1.])))
             variants.append(dict(t=t, unwhiten=rng.random() < .5, explicit=rng.sample(range(nc), rng.randrange(1, nc + 1))))
+        # probe coordinates stored as floats or as (un)signed integers: the geometry is the same
+        pdt = rng.pick(['float64', 'float64', 'float32', 'int32', 'int64', 'uint32', 'uint64', 'uint16'])
+        spec.setdefault('dtypes', {})
+        spec['dtypes'] = dict(spec['dtypes'], channel_positions=pdt)
         yield dict(p=PID, spec=spec, n_closest=rng.pick([1, 2, 3, 5, 12]), thr_default=rng.pick([0, 0, .25, .5]),
-                   variants=variants)
+                   variants=variants, reopen=rng.random() < .3)
